@@ -7,6 +7,6 @@ CONSTANTS MaxSeg = 3
           Depth = 0
           Trees <- ThoroughTrees
 INVARIANTS TypeOK DataClosed CanonHasHeads CanonLinkedToHead CanonLinkedPending CanonEndsAtHeadPending HeadOrder HeadStateAvail LookupCompletePending LookupSoundPending CacheCoherentPending
-PROPERTIES EventsDescribeSwitchPending AddedLogsCanonical RemovedWereCanonical HeadEventIsHead
+PROPERTIES EventsDescribeSwitchPending AddedLogsCanonical RemovedWereCanonical HeadEventIsHead FlagsRight
 VIEW View
 CHECK_DEADLOCK FALSE
